@@ -113,6 +113,7 @@ bool RSModel::SetExpressionFor(const EntityUID target, const std::string& expres
   } else {
     dataFacet->ResetFor(target);
     calulatorFacet->ResetFor(target);
+    ResetDependants(target);
     NotifyModification();
     return true;
   }
